@@ -33,7 +33,11 @@ LEVEL_TEXT = ("Theorems over the reals: every initialisation coefficient of the 
               "bounds the residual; normalised output = state / (6378.135 km, 106.30225 km/s); answers imply NEAR_NORM "
               "(perigee >= 220 km, period < 225 min) and the simplified-drag formulas equal the report's branch. The model is "
               "tied to orbital.py by comparing all ~75 named intermediates per (TLE, time) at 1e-11 and by regenerating "
-              "constants/thresholds from the source. Float tolerances (1 mm, 1 um/s, AIAA 5 mm) are measured, not proved.")
+              "constants/thresholds from the source, and by the T-C tie: every stage of OrbitElements.__init__, _SGDP4Base.__init__, "
+              "_Keplerians.calculate (all Newton passes) and get_position traced from the source equals the model's stage for all "
+              "real inputs (169 theorems, PV.Equiv.Sgp4*). Kepler's equation has exactly one root and the returned anomaly is within "
+              "1e-12/(1-e_L) of it whenever the loop exits through its test; for e_L <= 0.2 it always does (PV.Props.C01Kepler). "
+              "Float tolerances (1 mm, 1 um/s, AIAA 5 mm) are measured, not proved.")
 LEVEL_NOTE = ("Trusted: Lean kernel + Mathlib reals; propext/Classical.choice/Quot.sound; hand-written model and its "
               "correspondence harness; transcription of the published equations; binary64 rounding is outside the theorems.")
 TECHNIQUE = "Lean 4 proof (model = published equations over R, ring/field_simp) + differential correspondence on all intermediates + spec-on-Float oracle"
